@@ -51,6 +51,35 @@ def cnatm(n):
     return "%d%%N" % n  # nat literal in MathComp files (nat_scope is %N there)
 
 
+def eps_of(case):
+    """the threshold in effect: |last epsilon call| or machine epsilon (as Fraction)"""
+    es = [o for o in case["build"] if o[0] == "eps"]
+    if es:
+        return abs(frac(es[-1][1]))
+    return Fraction(1, 2 ** 52) if case["scalar"] == "f64" else Fraction(1, 2 ** 23)
+
+
+def eps2_of(case):
+    e = eps_of(case)
+    return qfr(e * e)
+
+
+def rankdef_term(case, observe, tables, sel):
+    """Coq term for a state whose basis matrix is exactly rank deficient; sel = independent columns"""
+    if observe["resid"] is None or observe["coef"] is None or tables["phi"] is None:
+        return None
+    if not all_finite_mat(tables["phi"]):
+        return None
+    m = case["meta"]
+    w = weights_of(case)
+    cu2, floor2, k2max = params_for(case["scalar"])
+    if not all_finite_mat(observe["coef"]) or not all(is_finite_hex(h) for h in observe["resid"]):
+        return "8%N"
+    return "num_rankdef %s %s %s %s %s %s %s %s %s %s %s %s" % (
+        cu2, floor2, k2max, eps2_of(case), cnatm(m["N"]), cnatm(m["M"]), "None" if w is None else "(Some %s)" % vec(w),
+        mat(tables["phi"]), mat_cols(obs_of(case)), sseq([cnatm(j) for j in sel]), mat(observe["coef"]), vec(observe["resid"]))
+
+
 def weights_of(case):
     ws = [o for o in case["build"] if o[0] == "weights"]
     if not ws:
@@ -79,10 +108,11 @@ def state_term(case, observe, tables, jac=None, with_jac=True, mode=7):
             ds = sseq([mat(d) for d in tables["d"]])
             J = "(Some %s)" % mat(jac)
     cu2, floor2, k2max = params_for(sc)
+    eps2 = eps2_of(case)
     o = ("{| so_n := %s; so_m := %s; so_w := %s; so_Phi := %s; so_Y := %s; so_Ds := %s; so_C := %s; so_R := %s; so_J := %s |}"
          % (cnatm(m["N"]), cnatm(m["M"]), "None" if w is None else "(Some %s)" % vec(w), mat(tables["phi"]), mat_cols(Y), ds,
             mat(observe["coef"]), vec(observe["resid"]), J))
-    return "num_state %s %s %s %s %s" % (cnatm(mode), cu2, floor2, k2max, o)
+    return "num_state %s %s %s %s %s %s" % (cnatm(mode), cu2, floor2, k2max, eps2, o)
 
 
 STATE_CODES = {1: "rank deficient or too ill-conditioned for the tolerance rule (not compared)", 2: "shapes differ",
